@@ -76,6 +76,41 @@ def acl_fragment_and_reassemble(n: int, n2: int, transport: str, m: int) -> bool
         return (a.cid, a.payload, b.cid, b.payload) == (0x0040, p1, 0x0041, p2)
 
 
+@harness(pre=['1 <= bufs <= 3 and 4 <= n <= 24 and 0 <= n_other <= 8 and 0 <= who_first <= 1'], family='acl', twin=True, kernels=K + ('bumble.host.DataPacketQueue.flush', 'bumble.host.Host.on_hci_disconnection_complete_event'), timeout=(90, 300),
+         grid={'m': [4, 6]},
+         bounds='two LE connections share the controller\'s 1..3 ACL buffers of 4 or 6 bytes; both have a PDU in fragments, most of them still waiting, when one connection is disconnected (symbolic sizes, buffer count and submission order): the surviving connection\'s remaining fragments still go out in order, start fragment first, and reassemble to exactly its PDU; nothing of the closed connection is sent afterwards')
+def fragments_survive_the_other_links_disconnection(bufs: int, n: int, n_other: int, who_first: int, m: int) -> bool:
+    bufs, n, n_other, who_first = C(bufs, 1, 3), C(n, 4, 24), C(n_other, 0, 8), C(who_first, 0, 1)
+    with untraced():
+        h = Host()
+        out = []
+        h.le_acl_packet_queue = bhost.DataPacketQueue(m, bufs, out.append)
+        h.acl_packet_queue = h.le_acl_packet_queue
+        for handle in (1, 2):
+            h.connections[handle] = bhost.Connection(h, handle, ADDR, PhysicalTransport.LE)
+        p_keep, p_gone = _payload(n), _payload(n_other, 100)
+        for handle in ((2, 1) if who_first else (1, 2)):
+            h.send_l2cap_pdu(handle, 0x0040, p_keep if handle == 1 else p_gone)
+        sent_before = len(out)
+        h.on_hci_disconnection_complete_event(hci.HCI_Disconnection_Complete_Event(status=0, connection_handle=2, reason=0x13))
+        for _ in range(40):
+            k = len(out)
+            h.on_hci_number_of_completed_packets_event(hci.HCI_Number_Of_Completed_Packets_Event(connection_handles=[1], num_completed_packets=[1]))
+            if len(out) == k and not h.le_acl_packet_queue._packets:
+                break
+        if any(p.connection_handle == 2 for p in out[sent_before:]):
+            return False
+        got = []
+        asm = hci.HCI_AclDataPacketAssembler(got.append)
+        for p in out:
+            if p.connection_handle == 1:
+                asm.feed_packet(p)
+        if len(got) != 1:
+            return False
+        pdu = l2cap.L2CAP_PDU.from_bytes(got[0])
+        return pdu.cid == 0x0040 and pdu.payload == p_keep
+
+
 @harness(pre=['1 <= m_acl <= 8 and 1 <= m_le <= 8 and 0 <= n <= 20'], family='acl', kernels=K, timeout=(60, 240),
          bounds='a controller with separate BR/EDR and LE buffers of symbolic sizes 1..8: the fragments of a connection fit the buffer length of ITS transport')
 def queue_of_the_right_transport(m_acl: int, m_le: int, n: int) -> bool:
